@@ -207,6 +207,34 @@ func runC01(t *fw.T) {
 	for _, c := range cfgs {
 		t.Feature("configs", c.String())
 	}
+	kinds := map[gen.Kind]string{gen.KLet: "let", gen.KFuncDecl: "function declaration", gen.KReturn: "return", gen.KIf: "if", gen.KWhile: "while", gen.KFor: "for", gen.KBlock: "block",
+		gen.KFunc: "function expression", gen.KArr: "array literal", gen.KObj: "object literal", gen.KTpl: "backtick string", gen.KStr: "string", gen.KCall: "call", gen.KDot: "member .", gen.KIdx: "member []"}
+	prog.Walk(func(n *gen.Node) {
+		if n == nil {
+			return
+		}
+		switch n.K {
+		case gen.KBin, gen.KAsg:
+			t.Feature("operators executed", n.Op)
+		case gen.KUn:
+			t.Feature("operators executed", "prefix "+n.Op)
+		case gen.KPost:
+			t.Feature("operators executed", "postfix "+n.Op)
+		case gen.KFor:
+			shape := ""
+			for i := 0; i < 3; i++ {
+				if n.Kids[i] == nil {
+					shape += "-"
+				} else {
+					shape += "x"
+				}
+			}
+			t.Feature("for-header shapes (init,test,update)", shape)
+		}
+		if k, ok := kinds[n.K]; ok {
+			t.Feature("constructs executed", k)
+		}
+	})
 }
 
 // hand-written hazard programs, each under every configuration
